@@ -7,6 +7,7 @@ import RavenModel.Model.Lmtp
 import RavenModel.Model.Policy
 import RavenModel.Model.Auth
 import RavenModel.Model.AuthJson
+import RavenModel.Model.Resp
 /-! Line protocol: one op per line (`op arg …`, byte-string args hex encoded, `-` = empty, `.` = empty list),
 one canonical line out. Stateful ops (`m.*`) act on the driver's mailbox-machine state. -/
 open Raven
@@ -119,6 +120,32 @@ def opsC04 : List String → Option String
   | ["a.ctl", user] => some (boolS ((unhex user).any Auth.isCtl))
   | _ => none
 
+/-- response trees in a compact canonical form: N, #n, a<hex>, q<hex>, l<hex>, ( … ) -/
+partial def showR : Resp.R → String
+  | .nil => "N"
+  | .num n => s!"#{n}"
+  | .atom a => "a" ++ hexOut a
+  | .quoted q => "q" ++ hexOut q
+  | .literal l => "l" ++ hexOut l
+  | .list xs => "( " ++ " ".intercalate (xs.map showR) ++ " )"
+
+def showLine : Resp.Line → String
+  | .cont => "C"
+  | .status t w => "S " ++ hexOut t ++ " " ++ hexOut w
+  | .data vs => "D " ++ " ".intercalate (vs.map showR)
+
+/-- `r.parse <raw bytes of a response>`: the strict reader of Model/Resp.lean, or the number of well-formed lines before the
+first malformed one -/
+def opsC13 : List String → Option String
+  | ["r.parse", raw] =>
+    let b := unhex raw
+    let fuel := b.length + 8
+    match Resp.readResponse fuel fuel b with
+    | some ls => some ("ok " ++ " | ".intercalate (ls.map showLine))
+    | none => some s!"fail {Resp.goodLines fuel fuel b}"
+  | ["r.nstring", s] => some (hexOut (Resp.render (if (unhex s) = [] then .nil else if (unhex s).all (fun c => c ≠ 13 ∧ c ≠ 10 ∧ c ≠ 0) then .quoted (unhex s) else .literal (unhex s))))
+  | _ => none
+
 /-! mailbox machine -/
 open Mail in
 def resS : Res → String | .ok => "ok" | .no => "no" | .bad => "bad"
@@ -212,7 +239,7 @@ def step (st : Mail.Store) (line : String) : Mail.Store × String :=
   match opsMail st args with
   | some r => r
   | none =>
-    match (opsC18 args <|> opsC09 args <|> opsC10 args <|> opsC16 args <|> opsC17 args <|> opsC04 args) with
+    match (opsC18 args <|> opsC09 args <|> opsC10 args <|> opsC16 args <|> opsC17 args <|> opsC04 args <|> opsC13 args) with
     | some r => (st, r)
     | none => (st, "bad-op")
 
